@@ -23,6 +23,8 @@ type MemStore struct {
 	BeforeMutate func()
 	// AfterMutate, if set, runs right after a batch became visible.
 	AfterMutate func()
+	Backups     []backupRec
+	backupSeq   int64
 }
 
 type Batch struct {
